@@ -528,6 +528,13 @@ let cmd_pg (x : sx) : sx =
             res_sx (fun ms -> sorted_sx (List.map (fun (p, m) -> L [n_sx p; pgmap_sx m]) ms))
               (run pg_dom pg_fuel a (sx_pghost h)))
            (match hosts with L l -> l | _ -> failwith "hosts"))
+  | L [A "pg-ownkeys"; aut; g; root] ->
+      (* hypothesis of c02_portgraph_run_reports_embeddings_of_good_patterns: every key of the
+         automaton is a key of the pattern (the pattern compiled alone) *)
+      let a = sx_automaton sx_pgkey sx_pgcons aut in
+      (match pg_cvec_full (sx_pghost g) (sx_n root) with
+       | Ok (_, nk) -> L [A "keysin"; bool_sx (aut_keys_in nk a)]
+       | _ -> L [A "keysin"; A "-"])
   | L [A "pg-cert"; aut; present; css] ->
       let a = sx_automaton sx_pgkey sx_pgcons aut in
       let pres = sx_list sx_bool present in
@@ -577,7 +584,7 @@ let dispatch (x : sx) : sx =
   | L (A ("tree" | "powerset" | "conditioned" | "with-children" | "pairwise" | "transitive") :: _) -> cmd_c10 x
   | L ((A ("aut-run" | "cvec" | "single" | "naive" | "cert" | "occ")) :: _ as args) -> cmd_engine args
   | L (A ("tab-run" | "tab-cert") :: _) -> cmd_tab x
-  | L (A ("pg-opts" | "pg-walk" | "pg-single" | "pg-naive" | "pg-run" | "pg-cert" | "pg-cvec" | "pg-cover" | "pg-good" | "pg-hostwf") :: _) -> cmd_pg x
+  | L (A ("pg-opts" | "pg-walk" | "pg-single" | "pg-naive" | "pg-run" | "pg-cert" | "pg-cvec" | "pg-cover" | "pg-good" | "pg-ownkeys" | "pg-hostwf") :: _) -> cmd_pg x
   | _ -> failwith "unknown command"
 
 let () =
